@@ -18,7 +18,7 @@ fn deferred_zombie() -> Vec<Op> {
 /// finish / drop / suspend / println only: every order in which two bars finish and are dropped,
 /// interleaved with output (deep histories over a small alphabet)
 fn focus_finish_drop_print(o: &Op) -> bool {
-    matches!(o, Op::Finish(_) | Op::DropBar(_) | Op::MpSuspend | Op::MpPrintln | Op::BarPrintln(0))
+    matches!(o, Op::Finish(_) | Op::DropBar(_) | Op::MpSuspend | Op::MpPrintln | Op::BarPrintln(0) | Op::MpClear)
 }
 
 /// growing and shrinking a bottom-aligned region: add, tick the newest and the first bar, remove,
@@ -65,6 +65,13 @@ pub fn c02_configs(tier: Tier) -> Vec<(Cfg, usize)> {
     c.root = pre_logs(1, two_drawn());
     c.align = true;
     v.push((c, if tier == Tier::Quick { d + 1 } else { d }));
+    // empty and multi-line printed lines among three drawn bars
+    let mut c = Cfg::base("c02-odd-logs", 20, 40);
+    c.root = pre_logs(1, vec![Op::Add, Op::Add, Op::Add, Op::Tick(0), Op::Tick(1), Op::Tick(2)]);
+    c.odd_logs = true;
+    c.inserts = false;
+    c.msgs = vec!["m".into()];
+    v.push((c, d));
     // three bars, middle finished (visible) and dropped
     let mut c = Cfg::base("c02-three-mid-zombie", 20, 40);
     c.root = vec![Op::Add, Op::Add, Op::Add, Op::Tick(0), Op::Tick(1), Op::Tick(2), Op::Finish(1), Op::DropBar(1)];
@@ -122,6 +129,13 @@ pub fn c03_configs(tier: Tier) -> Vec<(Cfg, usize)> {
     c.inserts = false;
     c.vt = true;
     v.push((c, if tier == Tier::Quick { d + 1 } else { d }));
+    // empty and multi-line printed lines
+    let mut c = Cfg::base("c03-odd-logs", 20, 40);
+    c.root = pre_logs(1, two_drawn());
+    c.odd_logs = true;
+    c.inserts = false;
+    c.msgs = vec!["m".into()];
+    v.push((c, d));
     // rate limited, limiter exhausted, frozen clock
     let mut c = Cfg::base("c03-hz1-exhausted", 20, 40);
     c.hz = Some(1);
@@ -264,6 +278,7 @@ pub fn c19_configs(tier: Tier) -> Vec<(Cfg, usize)> {
         c.bar_println = false;
         c.remove = false;
         c.clear_only = true;
+        c.odd_logs = true;
         c.root = pre_logs(3, vec![]);
         // renderings "a:" + msg of W-1, W, W+1, 2W, 2W+1 columns (and 2 columns for the empty message)
         let lens: Vec<usize> = [w.saturating_sub(1), w, w + 1, 2 * w, 2 * w + 1].iter().map(|t: &usize| t.saturating_sub(2)).collect();
